@@ -13,7 +13,7 @@
      asks for closed edges, and then (T1) is stated for every edge. *)
 From NIR Require Import Model.Graph Proofs.ShapesProofs Proofs.NodesProofs Proofs.GraphProofs
   Proofs.InferProofs.
-From Coq Require Import Lia List Bool String.
+From Coq Require Import Lia.
 
 (* ================================================================================================ *)
 (* (1) definitions                                                                                  *)
@@ -68,6 +68,106 @@ Inductive reach (ch : list (string * node)) (es : list (string * string)) : stri
 | reach_input c n : In (c, n) ch -> is_input n = true -> reach ch es c
 | reach_edge a b : reach ch es a -> In (a, b) es -> reach ch es b.
 
+(* ---- an executable checker of the hypotheses, sound w.r.t. wf_graph -------------------------------- *)
+Definition io_kind (k : kind) : bool := match k with KInput | KOutput => true | _ => false end.
+
+Definition annotatedb (t : list Z * list Z) (n : node) : bool :=
+  match n with
+  | Leaf k _ (Some [(ki, TArr a)]) (Some [(ko, TArr b)]) =>
+    String.eqb ki "input" && shape_eqb a (fst t) && String.eqb ko "output" && shape_eqb b (snd t) &&
+    (negb (io_kind k) || shape_eqb (snd t) (fst t))
+  | _ => false
+  end.
+
+Definition derive_okb (k : kind) (fs : list (string * pval)) (sin sout : list Z) : bool :=
+  match derive_output k fs [("output", TArr sin)] [("input", TArr sin)] with
+  | (_, Some [(ko, TArr s)], None) => String.eqb ko "output" && shape_eqb s sout
+  | _ => false
+  end.
+
+Definition erasedb (t : list Z * list Z) (n : node) : bool :=
+  match n with
+  | Leaf k fs (Some [(ki, vi)]) tout =>
+    (kind_eqb k KOutput && out_tin_ok (fst t) ki vi && shape_eqb (snd t) (fst t)) ||
+    (recomputable k && tyv_is_none vi && ty_undef tout && derive_okb k fs (fst t) (snd t))
+  | _ => false
+  end.
+
+Fixpoint nodup_strb (l : list string) : bool :=
+  match l with [] => true | x :: r => negb (mem_str x r) && nodup_strb r end.
+
+Definition wf_graphb (T : truth) (ch : list (string * node)) (es : list (string * string)) : bool :=
+  nodup_strb (map fst ch) &&
+  existsb (fun p => is_input (snd p)) ch &&
+  forallb (fun e => mem_str (fst e) (map fst ch) && mem_str (snd e) (map fst ch) &&
+                    shape_eqb (snd (T (fst e))) (fst (T (snd e)))) es &&
+  forallb (fun p => annotatedb (T (fst p)) (snd p) || erasedb (T (fst p)) (snd p)) ch.
+
+Ltac dmatch H :=
+  repeat (match type of H with context [match ?x with _ => _ end] =>
+            is_var x; destruct x; try discriminate H end).
+
+Lemma annotatedb_sound t n : annotatedb t n = true -> annotated t n.
+Proof.
+  intros H. unfold annotatedb in H. dmatch H.
+  repeat (apply andb_true_iff in H; destruct H as [H ?]).
+  apply String.eqb_eq in H. subst.
+  match goal with H : String.eqb _ "output" = true |- _ => apply String.eqb_eq in H; subst end.
+  repeat match goal with H : shape_eqb _ _ = true |- _ => apply shape_eqb_eq in H; subst end.
+  exists k, fields. split; [reflexivity|].
+  intros Hk. match goal with H : negb _ || _ = true |- _ => apply orb_true_iff in H; destruct H as [Hio|Hio] end.
+  - destruct Hk; subst; discriminate.
+  - apply shape_eqb_eq in Hio. exact Hio.
+Qed.
+
+Lemma kind_eqb_eq a b : kind_eqb a b = true -> a = b.
+Proof. destruct a; destruct b; intros H; try reflexivity; vm_compute in H; discriminate. Qed.
+
+Lemma derive_okb_sound k fs sin sout : derive_okb k fs sin sout = true ->
+  exists fs', derive_output k fs [("output", TArr sin)] [("input", TArr sin)] =
+              (fs', Some [("output", TArr sout)], None).
+Proof.
+  unfold derive_okb. destruct (derive_output _ _ _ _) as [[fs' r] ex]. intros H. dmatch H.
+  apply andb_true_iff in H as [H1 H2]. apply String.eqb_eq in H1. apply shape_eqb_eq in H2. subst.
+  exists fs'. reflexivity.
+Qed.
+
+Lemma erasedb_sound t n : erasedb t n = true -> erased_ok t n.
+Proof.
+  intros H. unfold erasedb in H. dmatch H.
+  exists k, fields, s, t0, tout. split; [reflexivity|].
+  apply orb_true_iff in H as [H|H]; repeat (apply andb_true_iff in H; destruct H as [H ?]).
+  - left. apply kind_eqb_eq in H. match goal with H : shape_eqb _ _ = true |- _ => apply shape_eqb_eq in H end.
+    repeat split; assumption.
+  - right. split; [exact H|]. split; [destruct t0; try discriminate; reflexivity|].
+    split; [assumption|]. apply derive_okb_sound. assumption.
+Qed.
+
+Lemma nodup_strb_sound l : nodup_strb l = true -> NoDup l.
+Proof.
+  induction l as [|x r IH]; cbn [nodup_strb]; intros H; constructor;
+    apply andb_true_iff in H as [H1 H2].
+  - intros Hin. apply mem_str_In in Hin. rewrite Hin in H1. discriminate.
+  - apply IH. exact H2.
+Qed.
+
+Theorem wf_graphb_sound T ch es : wf_graphb T ch es = true -> wf_graph T ch es.
+Proof.
+  unfold wf_graphb. intros H. repeat (apply andb_true_iff in H; destruct H as [H ?]).
+  constructor.
+  - apply nodup_strb_sound. exact H.
+  - match goal with H : existsb _ _ = true |- _ => apply existsb_exists in H; exact H end.
+  - apply Forall_forall. intros e He.
+    match goal with H : forallb _ es = true |- _ => rewrite forallb_forall in H; specialize (H e He);
+      repeat (apply andb_true_iff in H; destruct H as [H ?]) end.
+    repeat split; try (apply mem_str_In; assumption). apply shape_eqb_eq. assumption.
+  - apply Forall_forall. intros p Hp.
+    match goal with H : forallb _ ch = true |- _ => rewrite forallb_forall in H; specialize (H p Hp);
+      apply orb_true_iff in H; destruct H as [Hc|Hc] end.
+    + left. apply annotatedb_sound. exact Hc.
+    + right. apply erasedb_sound. exact Hc.
+Qed.
+
 (* ---- the concrete example ------------------------------------------------------------------------ *)
 Definition get_node (r : result node) : node :=
   match r with Ok n => n | Err _ => Leaf KInput [] None None end.
@@ -97,29 +197,16 @@ Example ex_all_constructed :
   forallb (fun p => match snd p with Leaf KInput [] None None => false | _ => true end) ex_ch = true.
 Proof. vm_compute. reflexivity. Qed.
 
+Example ex_wfb : wf_graphb ex_T ex_ch ex_es = true.
+Proof. vm_compute. reflexivity. Qed.
+
 Example ex_wf : wf_graph ex_T ex_ch ex_es.
-Proof.
-  constructor.
-  - vm_compute. repeat (constructor; [cbn [In]; timeout 20 intuition discriminate|]).
-    constructor.
-  - eexists. split; [left; reflexivity|vm_compute; reflexivity].
-  - repeat (apply Forall_cons; [vm_compute; repeat split; timeout 20 tauto|]). apply Forall_nil.
-  - unfold ex_ch. apply Forall_cons.
-    { left. vm_compute. eexists _, _. split; [reflexivity|]. intros _. reflexivity. }
-    apply Forall_cons.
-    { right. vm_compute. eexists _, _, _, _, _. split; [reflexivity|]. right.
-      repeat split. eexists. reflexivity. }
-    apply Forall_cons.
-    { right. vm_compute. eexists _, _, _, _, _. split; [reflexivity|]. right.
-      repeat split. eexists. reflexivity. }
-    apply Forall_cons.
-    { right. vm_compute. eexists _, _, _, _, _. split; [reflexivity|]. left.
-      repeat split. }
-    apply Forall_cons.
-    { right. vm_compute. eexists _, _, _, _, _. split; [reflexivity|]. left.
-      repeat split. }
-    apply Forall_nil.
-Qed.
+Proof. apply wf_graphb_sound. exact ex_wfb. Qed.
+
+(* the example really contains erased nodes (so the theorem has something to restore) *)
+Example ex_is_erased :
+  map (fun p => annotatedb (ex_T (fst p)) (snd p)) ex_ch = [true; false; false; false; false].
+Proof. vm_compute. reflexivity. Qed.
 
 Example ex_all_reachable : forall c, In c (map fst ex_ch) -> reach ex_ch ex_es c.
 Proof.
@@ -146,3 +233,490 @@ Example ex_infer_result :
   | _ => False
   end.
 Proof. vm_compute. repeat split. Qed.
+
+(* ================================================================================================ *)
+(* (2) the inductive step: one application of the loop body                                         *)
+(* ================================================================================================ *)
+Lemma rename_out_in v : rename_keys "output" "input" [("output", v)] = [("input", v)].
+Proof. reflexivity. Qed.
+
+Lemma rename_in_out v : rename_keys "input" "output" [("input", v)] = [("output", v)].
+Proof. reflexivity. Qed.
+
+Lemma shape_eqb_sym_false a b : shape_eqb a b = false -> shape_eqb b a = false.
+Proof.
+  intros H. destruct (shape_eqb b a) eqn:E; [|reflexivity].
+  apply shape_eqb_eq in E. subst. rewrite shape_eqb_refl in H. discriminate.
+Qed.
+
+Lemma apply_edge_eq pk pfs ptin o k fs i tout eq :
+  values_equal o i = Ok eq ->
+  apply_edge (Leaf pk pfs ptin (Some o)) (Leaf k fs (Some i) tout) =
+    let mismatch := negb (Nat.eqb (length i) (length o)) || negb eq in
+    let i' := if ty_undef (Some i) || mismatch then rename_keys "output" "input" o else i in
+    let tout1 := if kind_eqb k KOutput then Some (rename_keys "input" "output" i') else tout in
+    if ty_undef tout1 then
+      let '(fs', r, ex) := derive_output k fs o i' in
+      (Leaf k fs' (Some i') (match r with Some t => Some t | None => tout1 end), ex)
+    else (Leaf k fs (Some i') tout1, None).
+Proof. intros H. cbn [apply_edge]. rewrite H. reflexivity. Qed.
+
+(* whenever the loop body ends up with the true input type (either because it replaces a stale
+   one, or because the node already had it), the rest of the body is: *)
+Lemma apply_edge_with pk pfs ptin s k fs i tout eq :
+  values_equal [("output", TArr s)] i = Ok eq ->
+  (ty_undef (Some i) || (negb (Nat.eqb (length i) 1) || negb eq) = true \/ i = [("input", TArr s)]) ->
+  apply_edge (Leaf pk pfs ptin (Some [("output", TArr s)])) (Leaf k fs (Some i) tout) =
+    let tout1 := if kind_eqb k KOutput then Some [("output", TArr s)] else tout in
+    if ty_undef tout1 then
+      let '(fs', r, ex) := derive_output k fs [("output", TArr s)] [("input", TArr s)] in
+      (Leaf k fs' (Some [("input", TArr s)]) (match r with Some t => Some t | None => tout1 end), ex)
+    else (Leaf k fs (Some [("input", TArr s)]) tout1, None).
+Proof.
+  intros Hv Hc. rewrite (apply_edge_eq _ _ _ _ _ _ _ _ _ Hv). cbv zeta. cbn [length].
+  assert (Hi : (if ty_undef (Some i) || (negb (Nat.eqb (length i) 1) || negb eq)
+                then rename_keys "output" "input" [("output", TArr s)] else i) = [("input", TArr s)]).
+  { rewrite rename_out_in. destruct Hc as [Hc|Hc]; [rewrite Hc; reflexivity|].
+    subst i. destruct (_ || _); reflexivity. }
+  rewrite Hi, rename_in_out. reflexivity.
+Qed.
+
+Lemma recomputable_not_output k : recomputable k = true -> kind_eqb k KOutput = false.
+Proof. destruct k; intros H; try discriminate H; reflexivity. Qed.
+
+Theorem restore_step : forall (t : list Z * list Z) (pre post : node),
+  is_graph pre = false -> node_tout pre = arr_ty "output" (fst t) ->
+  annotated t post \/ erased_ok t post ->
+  exists post',
+    apply_edge pre post = (post', None) /\ annotated t post' /\
+    node_kind post' = node_kind post /\
+    (annotated t post -> post' = post).
+Proof.
+  intros [s so] pre post Hg Hpre Hpost. cbn [fst snd] in *.
+  destruct pre as [pk pfs ptin ptout|]; [|discriminate Hg]. cbn [node_tout] in Hpre. subst ptout.
+  unfold arr_ty.
+  destruct Hpost as [(k & fs & -> & Hio)|(k & fs & ki & vi & tout & -> & Hcase)]; cbn [fst snd] in *.
+  - (* annotated: nothing changes *)
+    unfold arr_ty. rewrite (apply_edge_with _ _ _ _ _ _ _ _ true).
+    2:{ cbn [values_equal array_equal tyv_nums]. rewrite shape_eqb_refl. reflexivity. }
+    2:{ right. reflexivity. }
+    cbv zeta. destruct (kind_eqb k KOutput) eqn:Ek.
+    + apply kind_eqb_eq in Ek. subst k. rewrite Hio by (right; reflexivity).
+      cbn [ty_undef existsb snd tyv_is_none orb].
+      eexists. split; [reflexivity|]. split.
+      * exists KOutput, fs. split; [reflexivity|]. intros _. reflexivity.
+      * split; [reflexivity|]. intros _. reflexivity.
+    + cbn [ty_undef existsb snd tyv_is_none orb].
+      eexists. split; [reflexivity|]. split.
+      * exists k, fs. split; [reflexivity|]. exact Hio.
+      * split; [reflexivity|]. intros _. reflexivity.
+  - destruct Hcase as [(-> & Hok & ->)|(Hrec & -> & Hun & fs' & Hd)].
+    + (* erased Output *)
+      assert (Hae : exists eq, values_equal [("output", TArr s)] [(ki, vi)] = Ok eq /\
+                (ty_undef (Some [(ki, vi)]) || (negb (Nat.eqb (length [(ki, vi)]) 1) || negb eq) = true \/
+                 [(ki, vi)] = [("input", TArr s)])).
+      { destruct vi as [|x|x|]; cbn [out_tin_ok] in Hok; cbn [values_equal array_equal tyv_nums].
+        - exists false. split; [reflexivity|]. left. reflexivity.
+        - destruct (shape_eqb s x) eqn:E.
+          + exists true. split; [reflexivity|]. right. apply shape_eqb_eq in E. subst x.
+            rewrite shape_eqb_refl in Hok. cbn [negb orb] in Hok. apply String.eqb_eq in Hok.
+            subst ki. reflexivity.
+          + exists false. split; [reflexivity|]. left. cbn [negb]. rewrite !orb_true_r. reflexivity.
+        - exists false. apply negb_true_iff in Hok. apply shape_eqb_sym_false in Hok. rewrite Hok.
+          split; [reflexivity|]. left. cbn [negb]. rewrite !orb_true_r. reflexivity.
+        - discriminate Hok. }
+      destruct Hae as (eq & Hv & Hc). rewrite (apply_edge_with _ _ _ _ _ _ _ _ eq Hv Hc).
+      cbv zeta. change (kind_eqb KOutput KOutput) with true. cbv iota.
+      cbn [ty_undef existsb snd tyv_is_none orb].
+      eexists. split; [reflexivity|]. split.
+      * exists KOutput, fs. split; [reflexivity|]. intros _. reflexivity.
+      * split; [reflexivity|]. intros (k' & fs'' & E & _). inversion E; subst. reflexivity.
+    + (* erased, recomputable *)
+      rewrite (apply_edge_with _ _ _ _ _ _ _ _ false).
+      2:{ reflexivity. }
+      2:{ left. reflexivity. }
+      cbv zeta. rewrite (recomputable_not_output _ Hrec), Hun, Hd.
+      eexists. split; [reflexivity|]. split.
+      * exists k, fs'. split; [reflexivity|]. intros [->| ->]; discriminate Hrec.
+      * split; [reflexivity|]. intros (k' & fs'' & E & _). inversion E.
+Qed.
+
+(* the three restrictions w.r.t. the informal statement are necessary: *)
+Example counterexample_output_other :
+  snd (apply_edge (Leaf KInput [] (arr_ty "input" [3]) (arr_ty "output" [3]))
+                  (Leaf KOutput [] (Some [("input", TOther)]) (Some [("output", TOther)])))
+  = Some OtherError.
+Proof. vm_compute. reflexivity. Qed.
+
+Example counterexample_output_seq :
+  apply_edge (Leaf KInput [] (arr_ty "input" [3]) (arr_ty "output" [3]))
+             (Leaf KOutput [] (Some [("input", TSeq [3])]) (Some [("output", TSeq [3])]))
+  = (Leaf KOutput [] (Some [("input", TSeq [3])]) (Some [("output", TSeq [3])]), None).
+Proof. vm_compute. reflexivity. Qed.
+
+Example counterexample_output_key :
+  apply_edge (Leaf KInput [] (arr_ty "input" [3]) (arr_ty "output" [3]))
+             (Leaf KOutput [] (Some [("x", TArr [3])]) (Some [("output", TNone)]))
+  = (Leaf KOutput [] (Some [("x", TArr [3])]) (Some [("x", TArr [3])]), None).
+Proof. vm_compute. reflexivity. Qed.
+
+Example counterexample_no_input :
+  snd (infer_types (mk_graph [("output", Leaf KOutput [] (arr_ty "input" [3]) (arr_ty "output" [3]))]
+                             [] (VDict []))) = Raised NotImplementedErr.
+Proof. vm_compute. reflexivity. Qed.
+
+Example counterexample_dangling_edge :
+  snd (infer_types (mk_graph [("input", Leaf KInput [] (arr_ty "input" [3]) (arr_ty "output" [3]))]
+                             [("input", "nowhere")] (VDict []))) = Raised KeyError.
+Proof. vm_compute. reflexivity. Qed.
+
+(* ================================================================================================ *)
+(* (3) the invariant along `run`                                                                     *)
+(* ================================================================================================ *)
+Lemma assoc_In' {A} k (l : list (string * A)) v : assoc k l = Some v -> In (k, v) l.
+Proof.
+  induction l as [|[k' v'] r IH]; cbn [assoc In]; [discriminate|].
+  destruct (String.eqb k k') eqn:E.
+  - apply String.eqb_eq in E. intros H. inversion H. subst. left. reflexivity.
+  - intros H. right. apply IH. exact H.
+Qed.
+
+Lemma In_keys_assoc {A} k (l : list (string * A)) : In k (map fst l) -> exists v, assoc k l = Some v.
+Proof.
+  induction l as [|[k' v'] r IH]; cbn [map fst In assoc]; [intros []|].
+  destruct (String.eqb k k') eqn:E; [intros _; eexists; reflexivity|].
+  intros [H|H]; [subst; rewrite String.eqb_refl in E; discriminate|apply IH; exact H].
+Qed.
+
+Lemma NoDup_In_assoc {A} k (l : list (string * A)) v :
+  NoDup (map fst l) -> In (k, v) l -> assoc k l = Some v.
+Proof.
+  induction l as [|[k' v'] r IH]; cbn [map fst In assoc]; [intros _ []|].
+  intros Hnd Hin. inversion Hnd as [|? ? Hni Hnd']; subst.
+  destruct Hin as [Hin|Hin].
+  - inversion Hin; subst. rewrite String.eqb_refl. reflexivity.
+  - destruct (String.eqb k k') eqn:E; [|apply IH; assumption].
+    apply String.eqb_eq in E. subst k'. exfalso. apply Hni.
+    change k with (fst (k, v)). apply in_map. exact Hin.
+Qed.
+
+Lemma pop_last_snoc {A} (l : list A) x : pop_last (l ++ [x]) = Some (l, x).
+Proof. unfold pop_last. rewrite rev_app_distr. cbn [rev app]. rewrite rev_involutive. reflexivity. Qed.
+
+Lemma annotated_tout t n : annotated t n -> is_graph n = false /\ node_tout n = arr_ty "output" (snd t).
+Proof. intros (k & fs & -> & _). split; reflexivity. Qed.
+
+Lemma erased_not_input t n : erased_ok t n -> is_input n = false.
+Proof.
+  intros (k & fs & ki & vi & tout & -> & [(-> & _)|(Hrec & _)]); [reflexivity|].
+  destruct k; try discriminate Hrec; reflexivity.
+Qed.
+
+Lemma child_ok_input T c n : child_ok T c n -> is_input n = true ->
+  annotated (T c) n /\ snd (T c) = fst (T c).
+Proof.
+  intros [Ha|He] Hi.
+  - split; [exact Ha|]. destruct Ha as (k & fs & -> & Hio). apply Hio. left.
+    cbn [is_input] in Hi. destruct k; try discriminate Hi. reflexivity.
+  - apply erased_not_input in He. rewrite He in Hi. discriminate.
+Qed.
+
+Section Invariant.
+  Variable T : truth.
+  Variable es : list (string * string).
+  Variable names : list string.     (* the child names, in order *)
+  Variable seen0 : list string.     (* the nodes marked by init_state *)
+
+  (* (T1) on the edge list, and closedness *)
+  Definition edges_ok : Prop :=
+    forall a b, In (a, b) es -> In a names /\ In b names /\ snd (T a) = fst (T b).
+
+  (* - the names are those of the initial graph;
+     - every seen child carries its truth, every other child is annotated or still erased_ok
+       (so, by child_ok_input, every Input child carries its truth);
+     - every ready edge is an edge whose source is seen;
+     - DFS: every out-edge of a seen node has a seen target or is still ready;
+     - the initially seen nodes stay seen *)
+  Definition inv (st : istate) : Prop :=
+    map fst (st_ch st) = names /\
+    (forall c n, assoc c (st_ch st) = Some n ->
+       annotated (T c) n \/ (erased_ok (T c) n /\ ~ In c (st_seen st))) /\
+    (forall a b, In (a, b) (st_ready st) -> In (a, b) es /\ In a (st_seen st)) /\
+    (forall x y, In x (st_seen st) -> In (x, y) es -> In y (st_seen st) \/ In (x, y) (st_ready st)) /\
+    incl seen0 (st_seen st).
+
+  Hypothesis Hes : edges_ok.
+
+  Lemma inv_seen_annotated st c : inv st -> In c (st_seen st) -> In c names ->
+    exists n, assoc c (st_ch st) = Some n /\ annotated (T c) n.
+  Proof.
+    intros (Hk & Hc & _) Hs Hn. rewrite <- Hk in Hn. apply In_keys_assoc in Hn as [n Hn].
+    exists n. split; [exact Hn|]. destruct (Hc c n Hn) as [Ha|[_ Hns]]; [exact Ha|contradiction].
+  Qed.
+
+  (* one iteration: either the work list is empty, or the body succeeds and the invariant holds
+     again; in particular the body never raises *)
+  Lemma step_inv st : inv st ->
+    (step es st = SDone /\ st_ready st = []) \/ (exists st', step es st = SNext st' /\ inv st').
+  Proof.
+    intros Hinv. destruct (list_last_cases (st_ready st)) as [Hr|(rest & [p q] & Hr)].
+    - left. split; [|exact Hr]. unfold step. rewrite Hr. reflexivity.
+    - right. pose proof Hinv as (Hk & Hc & Hrd & Hdfs & Hs0).
+      assert (Hpq : In (p, q) (st_ready st)) by (rewrite Hr; apply in_or_app; right; left; reflexivity).
+      destruct (Hrd p q Hpq) as [Hin Hps]. destruct (Hes p q Hin) as (Hpn & Hqn & HT).
+      destruct (inv_seen_annotated st p Hinv Hps Hpn) as (pre & Hpre & Hpa).
+      pose proof Hqn as Hqn'. rewrite <- Hk in Hqn'. apply In_keys_assoc in Hqn' as [post Hpost].
+      apply annotated_tout in Hpa as [Hpg Hpt]. rewrite HT in Hpt.
+      assert (Hpo : annotated (T q) post \/ erased_ok (T q) post).
+      { destruct (Hc q post Hpost) as [H|[H _]]; [left|right]; exact H. }
+      destruct (restore_step (T q) pre post Hpg Hpt Hpo) as (post' & Hae & Han & _ & _).
+      eexists. split.
+      + unfold step. rewrite Hr, pop_last_snoc. unfold lookup_child. rewrite Hpre, Hpost, Hae.
+        reflexivity.
+      + unfold inv. cbn [st_ch st_ready st_seen]. split; [|split; [|split; [|split]]].
+        * unfold set_child. rewrite (assoc_set_keys _ _ _ _ Hpost). exact Hk.
+        * intros c n. unfold set_child. rewrite assoc_assoc_set.
+          destruct (String.eqb c q) eqn:E.
+          -- apply String.eqb_eq in E. subst c. intros H. inversion H; subst. left. exact Han.
+          -- intros H. destruct (Hc c n H) as [Ha|[He Hns]]; [left; exact Ha|right].
+             split; [exact He|]. intros [Hq|Hq]; [|contradiction].
+             subst c. rewrite String.eqb_refl in E. discriminate.
+        * intros a b Hab. apply in_app_or in Hab as [Hab|Hab].
+          -- destruct (Hrd a b) as [H1 H2]; [rewrite Hr; apply in_or_app; left; exact Hab|].
+             split; [exact H1|right; exact H2].
+          -- unfold out_edges in Hab. apply filter_In in Hab as [H1 H2]. split; [exact H1|].
+             apply andb_true_iff in H2 as [H2 _]. cbn [fst] in H2. apply String.eqb_eq in H2.
+             left. symmetry. exact H2.
+        * intros x y Hx Hxy. destruct Hx as [Hx|Hx].
+          -- subst x. destruct (out_edges_in es q (q :: st_seen st) y Hxy) as [H|H].
+             ++ left. apply mem_str_In. exact H.
+             ++ right. apply in_or_app. right. exact H.
+          -- destruct (Hdfs x y Hx Hxy) as [H|H]; [left; right; exact H|].
+             rewrite Hr in H. apply in_app_or in H as [H|[H|[]]].
+             ++ right. apply in_or_app. left. exact H.
+             ++ inversion H; subst. left. left. reflexivity.
+        * apply incl_tl. exact Hs0.
+  Qed.
+
+  Theorem restore_invariant : forall fuel st, inv st ->
+    inv (fst (run fuel es st)) /\
+    (snd (run fuel es st) = Finished /\ st_ready (fst (run fuel es st)) = [] \/
+     snd (run fuel es st) = Raised OutOfFuel).
+  Proof.
+    induction fuel as [|f IH]; intros st Hinv.
+    - cbn [run fst snd]. split; [exact Hinv|right; reflexivity].
+    - rewrite run_S. destruct (step_inv st Hinv) as [[Hd Hr]|(st' & Hs & Hinv')].
+      + rewrite Hd. cbn [fst snd]. split; [exact Hinv|left; split; [reflexivity|exact Hr]].
+      + rewrite Hs. apply IH. exact Hinv'.
+  Qed.
+End Invariant.
+
+(* ================================================================================================ *)
+(* (4) DFS completeness (holds on every graph, typed or not)                                        *)
+(* ================================================================================================ *)
+Definition dfs_closed (es : list (string * string)) (seen : list string) (ready : list (string * string)) :=
+  forall x y, In x seen -> In (x, y) es -> In y seen \/ In (x, y) ready.
+
+Lemma dfs_push es seen rest p q :
+  dfs_closed es seen (rest ++ [(p, q)]) ->
+  dfs_closed es (q :: seen) (rest ++ out_edges es q (q :: seen)).
+Proof.
+  intros Hdfs x y Hx Hxy. destruct Hx as [Hx|Hx].
+  - subst x. destruct (out_edges_in es q (q :: seen) y Hxy) as [H|H].
+    + left. apply mem_str_In. exact H.
+    + right. apply in_or_app. right. exact H.
+  - destruct (Hdfs x y Hx Hxy) as [H|H]; [left; right; exact H|].
+    apply in_app_or in H as [H|[H|[]]].
+    + right. apply in_or_app. left. exact H.
+    + inversion H; subst. left. left. reflexivity.
+Qed.
+
+Theorem run_dfs_complete : forall fuel es st st',
+  run fuel es st = (st', Finished) -> dfs_closed es (st_seen st) (st_ready st) ->
+  (forall x y, In x (st_seen st') -> In (x, y) es -> In y (st_seen st')) /\
+  incl (st_seen st) (st_seen st').
+Proof.
+  induction fuel as [|f IH]; intros es st st' Hrun Hdfs; [cbn [run] in Hrun; inversion Hrun|].
+  rewrite run_S in Hrun. destruct (step es st) as [|st1 e|st1] eqn:Hs.
+  - inversion Hrun; subst st'. apply step_done in Hs. split; [|apply incl_refl].
+    intros x y Hx Hxy. destruct (Hdfs x y Hx Hxy) as [H|H]; [exact H|]. rewrite Hs in H. destruct H.
+  - inversion Hrun.
+  - apply step_next in Hs as (rest & p & q & pre & post & post' & Hr & _ & _ & _ & ->).
+    apply IH in Hrun.
+    + cbn [st_seen] in Hrun. destruct Hrun as [H1 H2]. split; [exact H1|].
+      intros x Hx. apply H2. right. exact Hx.
+    + cbn [st_seen st_ready]. apply (dfs_push es (st_seen st) rest p q). rewrite <- Hr. exact Hdfs.
+Qed.
+
+Lemma input_key ch a n : In (a, n) ch -> is_input n = true -> mem_str a (keys (inputs ch)) = true.
+Proof.
+  intros Hin Hi. apply mem_str_In. unfold keys, inputs. change a with (fst (a, n)). apply in_map.
+  apply filter_In. split; [exact Hin|exact Hi].
+Qed.
+
+Lemma init_dfs_closed ch es :
+  dfs_closed es (st_seen (init_state ch es)) (st_ready (init_state ch es)).
+Proof.
+  unfold init_state. cbn [st_seen st_ready]. intros x y Hx Hxy. right.
+  apply in_map_iff in Hx as (e & <- & He). apply filter_In in He as [_ He].
+  apply filter_In. split; [exact Hxy|exact He].
+Qed.
+
+Theorem restore_reachable : forall fuel ch es st',
+  run fuel es (init_state ch es) = (st', Finished) ->
+  forall c, reach ch es c ->
+    In c (st_seen st') \/ (exists n, In (c, n) ch /\ is_input n = true).
+Proof.
+  intros fuel ch es st' Hrun c Hc.
+  destruct (run_dfs_complete _ _ _ _ Hrun (init_dfs_closed ch es)) as [Hcl Hincl].
+  induction Hc as [c n Hin Hi|a b Ha IH Hab].
+  - right. exists n. split; assumption.
+  - left. apply (Hcl a b); [|exact Hab]. destruct IH as [H|(n & Hin & Hi)]; [exact H|].
+    apply Hincl. unfold init_state. cbn [st_seen]. change a with (fst (a, b)). apply in_map.
+    apply filter_In. split; [exact Hab|]. cbn [fst]. eapply input_key; eassumption.
+Qed.
+
+(* ================================================================================================ *)
+(* (5) the combination                                                                              *)
+(* ================================================================================================ *)
+Lemma wf_edges_ok T ch es : wf_graph T ch es -> edges_ok T es (map fst ch).
+Proof.
+  intros Hwf a b Hab. pose proof (wf_edges _ _ _ Hwf) as H. rewrite Forall_forall in H.
+  apply (H (a, b) Hab).
+Qed.
+
+Lemma init_inv T ch es : wf_graph T ch es ->
+  inv T es (map fst ch) (st_seen (init_state ch es)) (init_state ch es).
+Proof.
+  intros Hwf. unfold inv. split; [reflexivity|]. split; [|split; [|split]].
+  - intros c n Hcn. unfold init_state in Hcn. cbn [st_ch] in Hcn.
+    pose proof (wf_children _ _ _ Hwf) as Hch. rewrite Forall_forall in Hch.
+    destruct (Hch (c, n) (assoc_In' _ _ _ Hcn)) as [Ha|He]; [left; exact Ha|right].
+    split; [exact He|]. cbn [fst snd] in He. unfold init_state. cbn [st_seen]. intros Hs.
+    apply in_map_iff in Hs as (e & Hec & He'). apply filter_In in He' as [_ He'].
+    rewrite Hec in He'. apply mem_str_In in He'. unfold keys, inputs in He'.
+    apply in_map_iff in He' as ([c' n'] & Hc' & Hp). cbn [fst] in Hc'. subst c'.
+    apply filter_In in Hp as [Hp Hi]. cbn [snd] in Hi.
+    apply (NoDup_In_assoc _ _ _ (wf_nodup _ _ _ Hwf)) in Hp. rewrite Hp in Hcn. inversion Hcn; subst n'.
+    apply erased_not_input in He. rewrite He in Hi. discriminate.
+  - unfold init_state. cbn [st_ready st_seen]. intros a b Hab. split.
+    + apply filter_In in Hab. apply Hab.
+    + change a with (fst (a, b)). apply in_map. exact Hab.
+  - apply init_dfs_closed.
+  - apply incl_refl.
+Qed.
+
+Lemma reach_in_names T ch es c : wf_graph T ch es -> reach ch es c -> In c (map fst ch).
+Proof.
+  intros Hwf Hc. induction Hc as [c n Hin _|a b _ _ Hab].
+  - change c with (fst (c, n)). apply in_map. exact Hin.
+  - apply (wf_edges_ok _ _ _ Hwf a b Hab).
+Qed.
+
+Lemma is_input_kind n : is_input n = true <-> node_kind n = KInput.
+Proof.
+  destruct n as [k fs ti to|]; cbn [is_input node_kind]; [|split; discriminate].
+  destruct k; split; intros H; try discriminate H; reflexivity.
+Qed.
+
+Lemma erased_kind t n : erased_ok t n -> node_kind n <> KInput.
+Proof.
+  intros He Hk. apply is_input_kind in Hk. apply erased_not_input in He. rewrite He in Hk. discriminate.
+Qed.
+
+Lemma gty_defined T ch es : wf_graph T ch es -> gty_undef (graph_tin ch) = false.
+Proof.
+  intros Hwf. unfold graph_tin.
+  assert (Hall : forall p, In p (inputs ch) -> node_tin (snd p) <> None).
+  { intros [c n] Hp. apply filter_In in Hp as [Hp Hi]. cbn [snd] in *.
+    pose proof (wf_children _ _ _ Hwf) as Hch. rewrite Forall_forall in Hch.
+    destruct (child_ok_input T c n (Hch (c, n) Hp) Hi) as [(k & fs & -> & _) _]. discriminate. }
+  destruct (wf_input _ _ _ Hwf) as (p & Hp & Hi).
+  assert (Hne : In p (inputs ch)) by (apply filter_In; split; assumption).
+  destruct (inputs ch) as [|p0 r] eqn:E; [destruct Hne|]. clear Hne.
+  cbn [gty_undef]. revert Hall. generalize (p0 :: r). intros l Hall.
+  induction l as [|a l IH]; cbn [map existsb]; [reflexivity|].
+  cbn [snd]. destruct (node_tin (snd a)) eqn:Ea.
+  - cbn [orb]. apply IH. intros q Hq. apply Hall. right. exact Hq.
+  - exfalso. apply (Hall a); [left; reflexivity|exact Ea].
+Qed.
+
+Theorem infer_restores : forall T ch es m, wf_graph T ch es ->
+  exists ch',
+    infer_types (mk_graph ch es m) = (mk_graph ch' es m, Finished) /\
+    map fst ch' = map fst ch /\
+    (forall c n', assoc c ch' = Some n' -> child_ok T c n') /\
+    (forall c, reach ch es c -> exists n', assoc c ch' = Some n' /\ annotated (T c) n').
+Proof.
+  intros T ch es m Hwf. unfold mk_graph at 1. cbn [infer_types].
+  rewrite (gty_defined _ _ _ Hwf). cbn [negb].
+  pose proof (restore_invariant T es (map fst ch) (st_seen (init_state ch es)) (wf_edges_ok _ _ _ Hwf)
+                (infer_fuel ch es) (init_state ch es) (init_inv _ _ _ Hwf)) as [Hinv Hoc].
+  pose proof (infer_fuel_suffices ch es) as Hfuel.
+  pose proof (run_frame (infer_fuel ch es) es (init_state ch es)) as Hframe.
+  destruct (run (infer_fuel ch es) es (init_state ch es)) as [st oc] eqn:ER. cbn [fst snd] in *.
+  destruct Hoc as [[-> _]|Hoc]; [|contradiction].
+  exists (st_ch st). split; [reflexivity|].
+  pose proof Hinv as (Hk & Hc & _). split; [exact Hk|]. split.
+  - intros c n' Hcn. destruct (Hc c n' Hcn) as [H|[H _]]; [left|right]; exact H.
+  - intros c Hreach.
+    pose proof (reach_in_names _ _ _ _ Hwf Hreach) as Hn.
+    destruct (restore_reachable _ _ _ _ ER c Hreach) as [Hs|(n & Hin & Hi)].
+    + eapply inv_seen_annotated; eassumption.
+    + apply (NoDup_In_assoc _ _ _ (wf_nodup _ _ _ Hwf)) in Hin.
+      cbn [init_state st_ch] in Hframe.
+      destruct (Hframe c n Hin) as (n' & Hn' & Hkind & _). exists n'. split; [exact Hn'|].
+      destruct (Hc c n' Hn') as [Ha|[He _]]; [exact Ha|].
+      exfalso. apply (erased_kind _ _ He). rewrite Hkind. apply is_input_kind. exact Hi.
+Qed.
+
+(* restored types are defined *)
+Lemma annotated_defined t n : annotated t n ->
+  ty_undef (node_tin n) = false /\ ty_undef (node_tout n) = false.
+Proof. intros (k & fs & -> & _). split; reflexivity. Qed.
+
+Theorem infer_then_check : forall T ch es m, wf_graph T ch es ->
+  (forall c, In c (map fst ch) -> reach ch es c) ->
+  forall g' oc, infer_types (mk_graph ch es m) = (g', oc) ->
+    oc = Finished /\ check_types g' = Ok true /\
+    exists ch', g' = mk_graph ch' es m /\ map fst ch' = map fst ch /\
+      forall c, In c (map fst ch) ->
+        exists k fs, assoc c ch' = Some (Leaf k fs (arr_ty "input" (fst (T c))) (arr_ty "output" (snd (T c)))).
+Proof.
+  intros T ch es m Hwf Hall g' oc Hinf.
+  destruct (infer_restores T ch es m Hwf) as (ch' & Hres & Hk & _ & Hreach).
+  rewrite Hres in Hinf. inversion Hinf; subst g' oc. split; [reflexivity|]. split.
+  - unfold mk_graph. cbn [check_types]. apply check_edges_sound_complete. apply Forall_forall.
+    intros [a b] Hab. destruct (wf_edges_ok _ _ _ Hwf a b Hab) as (Ha & Hb & HT).
+    destruct (Hreach a (Hall a Ha)) as (na & Hna & (ka & fa & -> & _)).
+    destruct (Hreach b (Hall b Hb)) as (nb & Hnb & (kb & fb & -> & _)).
+    exists (Leaf ka fa (arr_ty "input" (fst (T a))) (arr_ty "output" (snd (T a)))),
+           (Leaf kb fb (arr_ty "input" (fst (T b))) (arr_ty "output" (snd (T b)))),
+           "output", (TArr (snd (T a))), "input", (TArr (fst (T b))), (snd (T a)).
+    cbn [fst snd child_tout child_tin tyv_nums].
+    split; [exact Hna|]. split; [exact Hnb|]. split; [reflexivity|]. split; [reflexivity|].
+    split; [reflexivity|]. rewrite HT. reflexivity.
+  - exists ch'. split; [reflexivity|]. split; [exact Hk|]. intros c Hc.
+    destruct (Hreach c (Hall c Hc)) as (n' & Hn' & (k & fs & -> & _)). exists k, fs. exact Hn'.
+Qed.
+
+(* the theorems apply to the example *)
+Example ex_restored :
+  exists ch', infer_types (mk_graph ex_ch ex_es (VDict [])) = (mk_graph ch' ex_es (VDict []), Finished) /\
+              check_types (mk_graph ch' ex_es (VDict [])) = Ok true.
+Proof.
+  destruct (infer_types (mk_graph ex_ch ex_es (VDict []))) as [g' oc] eqn:E.
+  destruct (infer_then_check ex_T ex_ch ex_es (VDict []) ex_wf ex_all_reachable g' oc E)
+    as (-> & Hc & ch' & -> & _).
+  exists ch'. split; [reflexivity|exact Hc].
+Qed.
+
+Print Assumptions wf_graphb_sound.
+Print Assumptions ex_wf.
+Print Assumptions restore_step.
+Print Assumptions restore_invariant.
+Print Assumptions run_dfs_complete.
+Print Assumptions restore_reachable.
+Print Assumptions infer_restores.
+Print Assumptions infer_then_check.
+Print Assumptions ex_restored.
